@@ -1,2 +1,141 @@
-/-! placeholder driver (property C15 not built yet) -/
-def main : IO Unit := IO.println "bad-op"
+import LlgoVerif.Util
+import LlgoVerif.Model.TypeStr
+/-! Line-protocol driver for C15 (stateful: the environment is sent first).
+
+Terms as in `Driver/C07.lean`.  Requests:
+* `pkg pathH nameH`            → `ok`      (package name of a path)
+* `under decl | T`             → `ok`      (underlying type of a declaration)
+* `desc T | MSET`              → `<hex Str_> <hex String()> <kind> <named><extrastar><variadic><closure> <xcount> <hex emitted names, comma separated | ->`
+                                 (`unsupported` for the `types.TypeString` fall-back of type arguments)
+-/
+open LlgoVerif LlgoVerif.Util LlgoVerif.Types
+
+def strOfHex (h : String) : Option Str := do
+  let bs ← unhex h
+  let s ← String.fromUTF8? bs.toByteArray
+  pure s.toList
+
+def optStrOfHex (h : String) : Option (Option Str) :=
+  if h = "~" then some none else (strOfHex h).map some
+
+def hexOfStr (s : Str) : String := hex (String.ofList s).toUTF8.data.toList
+
+def basicOfName : String → Option BasicKind
+  | "bool" => some .bool | "int" => some .int | "int8" => some .int8 | "int16" => some .int16
+  | "int32" => some .int32 | "int64" => some .int64 | "uint" => some .uint | "uint8" => some .uint8
+  | "uint16" => some .uint16 | "uint32" => some .uint32 | "uint64" => some .uint64 | "uintptr" => some .uintptr
+  | "float32" => some .float32 | "float64" => some .float64 | "complex64" => some .complex64
+  | "complex128" => some .complex128 | "string" => some .string | "unsafe.Pointer" => some .unsafePointer
+  | "byte" => some .byte | "rune" => some .rune
+  | _ => none
+
+def scopeOf (s : String) : Option Scope :=
+  if s = "g" then some .pkg
+  else if s.startsWith "s:" then
+    let body := (s.drop 2).toString
+    if body = "" then some (.path [])
+    else ((body.splitOn ".").mapM String.toNat?).map Scope.path
+  else if s.startsWith "p:" then (s.drop 2).toString.toNat?.map Scope.pos
+  else none
+
+mutual
+partial def parseT : List String → Option (GoType × List String)
+  | "B" :: k :: r => (basicOfName k).map fun b => (.basic b, r)
+  | "P" :: r => do let (t, r) ← parseT r; pure (.pointer t, r)
+  | "S" :: r => do let (t, r) ← parseT r; pure (.slice t, r)
+  | "A" :: n :: r => do let n ← n.toNat?; let (t, r) ← parseT r; pure (.array n t, r)
+  | "M" :: r => do let (k, r) ← parseT r; let (v, r) ← parseT r; pure (.map k v, r)
+  | "C" :: d :: r => do
+    let d ← (match d with | "0" => some ChanDir.both | "1" => some .send | "2" => some .recv | _ => none)
+    let (t, r) ← parseT r; pure (.chan d t, r)
+  | "F" :: v :: np :: nr :: r => do
+    let np ← np.toNat?; let nr ← nr.toNat?
+    let (ps, r) ← parseTL np r; let (rs, r) ← parseTL nr r
+    pure (.func ps rs (v == "1"), r)
+  | "T" :: n :: r => do let n ← n.toNat?; let (fs, r) ← parseFL n r; pure (.struct fs, r)
+  | "I" :: n :: r => do let n ← n.toNat?; let (ms, r) ← parseML n r; pure (.iface ms, r)
+  | "N" :: d :: pkg :: name :: sc :: nt :: r => do
+    let d ← d.toNat?; let pkg ← optStrOfHex pkg; let name ← strOfHex name; let sc ← scopeOf sc
+    let nt ← nt.toNat?; let (ts, r) ← parseTL nt r
+    pure (.named d pkg name sc ts, r)
+  | "L" :: name :: r => do let name ← strOfHex name; let (t, r) ← parseT r; pure (.alias name t, r)
+  | _ => none
+partial def parseTL : Nat → List String → Option (TList × List String)
+  | 0, r => some (.nil, r)
+  | n+1, r => do let (t, r) ← parseT r; let (ts, r) ← parseTL n r; pure (.cons t ts, r)
+partial def parseFL : Nat → List String → Option (FList × List String)
+  | 0, r => some (.nil, r)
+  | n+1, name :: pkg :: emb :: tag :: r => do
+    let name ← strOfHex name; let pkg ← optStrOfHex pkg; let tag ← strOfHex tag
+    let (t, r) ← parseT r; let (fs, r) ← parseFL n r
+    pure (.cons name pkg (emb == "1") tag t fs, r)
+  | _, _ => none
+partial def parseML : Nat → List String → Option (MList × List String)
+  | 0, r => some (.nil, r)
+  | n+1, name :: pkg :: r => do
+    let name ← strOfHex name; let pkg ← optStrOfHex pkg
+    let (t, r) ← parseT r; let (ms, r) ← parseML n r
+    pure (.cons name pkg t ms, r)
+  | _, _ => none
+end
+
+def parseWhole (toks : List String) : Option GoType :=
+  match parseT toks with
+  | some (t, []) => some t
+  | _ => none
+
+def splitBar (toks : List String) : List String × List String :=
+  (toks.takeWhile (· ≠ "|"), (toks.dropWhile (· ≠ "|")).drop 1)
+
+structure St where
+  pkgs : List (Str × Str) := []
+  unders : List (Nat × GoType) := []
+
+/-- the environment: facts about a declaration's underlying type are computed with the model itself,
+    following `Named → Underlying()` at most `fuel` times (declarations nest finitely) -/
+def mkEnv (st : St) : Nat → Env
+  | 0 => { pkgName := fun p => (st.pkgs.lookup p).getD [], underStar := fun _ => false, underKind := fun _ => .invalid,
+           underVariadic := fun _ => false, underClosure := fun _ => false }
+  | fuel+1 =>
+    let inner := mkEnv st fuel
+    { pkgName := fun p => (st.pkgs.lookup p).getD []
+      underStar := fun d => match st.unders.lookup d with | some u => extraStar inner u | none => false
+      underKind := fun d => match st.unders.lookup d with | some u => kindOf inner u | none => .invalid
+      underVariadic := fun d => match st.unders.lookup d with | some u => flagVariadic inner u | none => false
+      underClosure := fun d => match st.unders.lookup d with | some u => flagClosure inner u | none => false }
+
+def bstr (b : Bool) : String := if b then "1" else "0"
+
+def msetOf : GoType → List MethodIn
+  | .iface ms =>
+    let rec go : MList → List MethodIn
+      | .nil => []
+      | .cons n p s r => { name := n, pkg := p, sigName := [] } :: go r
+    go ms
+  | _ => []
+
+def handle (st : St) (line : String) : St × String :=
+  match fields line with
+  | ["pkg", p, n] =>
+    match strOfHex p, strOfHex n with
+    | some p, some n => ({ st with pkgs := (p, n) :: st.pkgs }, "ok")
+    | _, _ => (st, "bad-op")
+  | "under" :: d :: "|" :: toks =>
+    match d.toNat?, parseWhole toks with
+    | some d, some t => ({ st with unders := (d, t) :: st.unders }, "ok")
+    | _, _ => (st, "bad-op")
+  | "desc" :: toks =>
+    let (a, b) := splitBar toks
+    match parseWhole a, parseWhole b with
+    | some t, some ms =>
+      if !supported t then (st, "unsupported") else
+      let env := mkEnv st 8
+      let m := msetOf ms
+      let names := m.map fun x => hexOfStr (emittedName x)
+      (st, hexOfStr (strC env t) ++ " " ++ hexOfStr (reflectString env t) ++ " " ++ toString (kindOf env t).toNat ++ " " ++
+        bstr (flagNamed t) ++ bstr (extraStar env t) ++ bstr (flagVariadic env t) ++ bstr (flagClosure env t) ++ " " ++
+        toString (xcount m) ++ " " ++ (if names.isEmpty then "-" else ",".intercalate names))
+    | _, _ => (st, "bad-op")
+  | _ => (st, "bad-op")
+
+def main : IO Unit := lineLoopSt ({} : St) handle
